@@ -40,6 +40,7 @@ fn main() {
         "c12_request_gate" => c12_request_gate(args.get(2).map(|s| s.as_str()).unwrap_or("")),
         "c12_send_order" => c12_send_order(),
         "c10_stale_limit" => c10_stale_limit(),
+        "c06_poll_next_spin" => c06_poll_next_spin(),
         "c03_frame_after_trailers" => c03_frame_after_trailers(),
         "c08_client_goaways" => c08_client_goaways(args.get(2).map(|s| s.as_str()).unwrap_or("8,4,8")),
         "c10_431_respects_client_limit" => c10_431_respects_client_limit(),
@@ -1424,10 +1425,11 @@ fn c08_client_goaways(ids: &str) -> i32 {
 }
 
 
-/// Server request stream: HEADERS, DATA "abc", HEADERS (trailers) arrive in one chunk and the stream stays open; in a later
-/// chunk a frame that must not follow trailers arrives (DATA, then in a second run SETTINGS). The application follows the
-/// documented pattern (recv_data until None, then recv_trailers, polled again whenever it is pending). The sequence is
-/// invalid: it must end in the connection error H3_FRAME_UNEXPECTED, not in a delivered message.
+/// Server request stream: HEADERS, DATA "abc", HEADERS (trailers) arrive in one chunk and the stream stays open. The
+/// application follows the documented pattern (recv_data until None, then recv_trailers). While nothing else has arrived
+/// recv_trailers must NOT complete the message (the stream has not ended: anything may still follow). Then a frame that
+/// must not follow trailers arrives (DATA; in a second run SETTINGS): the outcome must be the connection error
+/// H3_FRAME_UNEXPECTED, not a delivered message.
 fn c03_frame_after_trailers() -> i32 {
     let mut rc = 0;
     for (name, late) in [("DATA", vec![0x00u8, 0x01, b'x']), ("SETTINGS", vec![0x04, 0x00])] {
@@ -1438,9 +1440,8 @@ fn c03_frame_after_trailers() -> i32 {
         let mut bytes = vec![0x01, block.len() as u8];
         bytes.extend_from_slice(&block);
         bytes.extend_from_slice(&[0x00, 0x03, b'a', b'b', b'c']);
-        // trailers: one literal field "t: v"
         bytes.extend_from_slice(&headers_frame_literal(&[(b"t", b"v")]));
-        mock.push_bidi(0, vec![RecvEvent::Data(bytes), RecvEvent::Pending, RecvEvent::Data(late), RecvEvent::Fin]);
+        mock.push_bidi(0, vec![RecvEvent::Data(bytes)]);
         let resolver = match drive(conn.accept(), 10) {
             Some(Ok(Some(r))) => r,
             _ => {
@@ -1456,28 +1457,94 @@ fn c03_frame_after_trailers() -> i32 {
             }
         };
         loop {
-            match drive(stream.recv_data(), 10) {
+            match drive(stream.recv_data(), 3) {
                 Some(Ok(Some(_))) => continue,
                 _ => break,
             }
         }
-        let t = drive(stream.recv_trailers(), 10);
-        let outcome = match &t {
-            None => "Pending".to_string(),
-            Some(Ok(Some(_))) => "Ok(Some(trailers))".to_string(),
-            Some(Ok(None)) => "Ok(None)".to_string(),
-            Some(Err(e)) => format!("Err({:?})", e),
+        let (_c, waker) = counting_waker();
+        let mut cx = Context::from_waker(&waker);
+        let show = |t: &Poll<Result<Option<http::HeaderMap>, StreamError>>| match t {
+            Poll::Pending => "Pending".to_string(),
+            Poll::Ready(Ok(Some(_))) => "Ok(Some(trailers))".to_string(),
+            Poll::Ready(Ok(None)) => "Ok(None)".to_string(),
+            Poll::Ready(Err(e)) => format!("Err({:?})", e),
         };
-        let closed: Vec<u64> = mock.world.lock().unwrap().log.closed.iter().map(|c| c.0).collect();
-        println!("{} after the trailers in a later chunk: recv_trailers -> {}; close calls {:x?}", name, outcome, closed);
-        let unexpected = matches!(&t, Some(Err(StreamError::ConnectionError(ConnectionError::Local { error: LocalError::Application { code, .. } }))) if *code == Code::H3_FRAME_UNEXPECTED);
+        let first = stream.poll_recv_trailers(&mut cx);
+        println!("recv_trailers while the stream is open and nothing follows yet: {}", show(&first));
+        if matches!(first, Poll::Ready(Ok(_))) {
+            println!("REPRODUCED: the message is completed before the end of the stream was seen; a {} frame arriving next is never examined", name);
+            rc = 1;
+            std::mem::forget(stream);
+            std::mem::forget(conn);
+            continue;
+        }
+        mock.world.lock().unwrap().late.entry(0).or_default().extend([RecvEvent::Data(late), RecvEvent::Fin]);
+        let mut second = stream.poll_recv_trailers(&mut cx);
+        if second.is_pending() {
+            second = stream.poll_recv_trailers(&mut cx);
+        }
+        println!("{} after the trailers, in a later chunk: recv_trailers -> {}", name, show(&second));
+        let unexpected = matches!(&second, Poll::Ready(Err(StreamError::ConnectionError(ConnectionError::Local { error: LocalError::Application { code, .. } }))) if *code == Code::H3_FRAME_UNEXPECTED);
         if !unexpected {
-            println!("REPRODUCED: a frame sequence with {} after the trailers is delivered as a message instead of H3_FRAME_UNEXPECTED", name);
+            println!("REPRODUCED: a frame sequence with {} after the trailers does not end in H3_FRAME_UNEXPECTED", name);
             rc = 1;
         }
-        std::mem::forget(t);
+        std::mem::forget(second);
         std::mem::forget(stream);
         std::mem::forget(conn);
     }
     rc
+}
+
+
+/// Server: a request stream delivers frames cut inside (every cut position of a HEADERS frame with a 70-byte payload, i.e.
+/// a 3-byte frame header, and the two bytes 40 41 of a WebTransport frame type without its session id), and nothing more
+/// arrives. resolve_request / the frame layer must return Pending (and stay responsive); run under a watchdog: if one
+/// poll does not return within 3 s the call spins.
+fn c06_poll_next_spin() -> i32 {
+    let (tx, rx) = std::sync::mpsc::channel::<String>();
+    std::thread::spawn(move || {
+        // HEADERS frame, 70-byte payload: field section prefix + one literal field with a 64-byte value
+        let mut block = vec![0x00u8, 0x00, 0x21, b'n', 0x40];
+        block.extend(std::iter::repeat(b'v').take(64));
+        block.truncate(69);
+        block[4] = 64;
+        let mut frame = vec![0x01, 0x40, block.len() as u8];
+        frame.extend_from_slice(&block);
+        let mut inputs: Vec<Vec<u8>> = (1..frame.len()).map(|cut| frame[..cut].to_vec()).collect();
+        inputs.push(vec![0x40, 0x41]);
+        for input in inputs {
+            let mock = Mock::new(true);
+            let mut conn: h3::server::Connection<Mock, Bytes> =
+                drive(h3::server::builder().build(mock.clone()), 10).expect("build completes").expect("build ok");
+            let n = input.len();
+            mock.push_bidi(0, vec![RecvEvent::Data(input)]);
+            let resolver = match drive(conn.accept(), 10) {
+                Some(Ok(Some(r))) => r,
+                _ => continue,
+            };
+            tx.send(format!("start {}", n)).ok();
+            let r = drive(resolver.resolve_request(), 3);
+            tx.send(format!("done {} {}", n, if r.is_none() { "Pending" } else { "Ready" })).ok();
+            std::mem::forget(r);
+            std::mem::forget(conn);
+        }
+        tx.send("end".to_string()).ok();
+    });
+    let mut current = String::new();
+    loop {
+        match rx.recv_timeout(std::time::Duration::from_secs(3)) {
+            Ok(m) if m == "end" => {
+                println!("every truncated input left resolve_request Pending (or refused) without spinning");
+                return 0;
+            }
+            Ok(m) => current = m,
+            Err(_) => {
+                println!("watchdog: no answer within 3 s after '{}' (bytes of the cut frame buffered, nothing more arrives)", current);
+                println!("REPRODUCED: a poll of the frame layer never returns");
+                return 1;
+            }
+        }
+    }
 }
